@@ -466,7 +466,6 @@ func (p *Prog) knownOwners(fn *ssa.Function, within map[*ssa.Function]bool) []*s
 	return out
 }
 
-
 // wrappedKnown: g is a closure whose body is, apart from deferred calls and
 // builtins, exactly one plain call of a known local function.
 func (p *Prog) wrappedKnown(g *ssa.Function) *ssa.Function {
@@ -496,7 +495,6 @@ func (p *Prog) wrappedKnown(g *ssa.Function) *ssa.Function {
 	}
 	return nil
 }
-
 
 // enteredOnlyThroughHelper: g is a closure whose only use is as the argument
 // of helper calls in its parent (the helper calls it through a function-typed
